@@ -719,10 +719,10 @@ def m_from_elem(e,run,a,f):
     n=deref(a[1])
     if not n.conc(): raise Unsupported('from_elem symbolic n')
     return VecO([copy_val(a[0]) for _ in range(n.v)])
-def m_box_uninit(e,run,a,f): return Ref(Cell(Agg('MaybeUninit',[Agg('ManuallyDrop',[None])])))
+def m_box_uninit(e,run,a,f): return Ref(Cell(Agg('MaybeUninit',[UNIT,Agg('ManuallyDrop',[Agg('MaybeDangling',[None])])])))
 def m_box_assume_init_vec(e,run,a,f):
     v=deref(a[0])
-    while isinstance(v,Agg) and v.ty in ('MaybeUninit','ManuallyDrop','MaybeDangling'): v=v.f[0]
+    while isinstance(v,Agg) and v.ty in ('MaybeUninit','ManuallyDrop','MaybeDangling'): v=v.f[1] if v.ty=='MaybeUninit' else v.f[0]
     if isinstance(v,VecO): return v
     raise Unsupported('box_assume_init_into_vec '+repr(v)[:60])
 def m_vec_contains(e,run,a,f):
@@ -1195,3 +1195,59 @@ def register_fmt(E):
 _old_register_all=register_all
 def register_all(E):
     _old_register_all(E); register_fmt(E)
+
+# ----------------------------------------------------------------------------- chrono (DateTime<Utc> = (secs: i64, nanos: u32) absolute UTC instant)
+def dt_cmp_term(a,b,op):
+    a=deref(a); b=deref(b)
+    s1,n1=a.f[0].z(),a.f[1].z(); s2,n2=b.f[0].z(),b.f[1].z()
+    lt=z3.Or(s1<s2,z3.And(s1==s2,z3.ULT(n1,n2)))
+    eq=z3.And(s1==s2,n1==n2)
+    return {'lt':lt,'le':z3.Or(lt,eq),'gt':z3.Not(z3.Or(lt,eq)),'ge':z3.Not(lt),'eq':eq,'ne':z3.Not(eq)}[op]
+def m_dt_cmp(op):
+    def m(e,run,a,f): return Bool(dt_cmp_term(a[0],a[1],op))
+    return m
+def m_dt_clone(e,run,a,f): return copy_val(deref(a[0]))
+# ----------------------------------------------------------------------------- more paths
+def m_path_file_name(e,run,a,f):
+    bl=pb_bytes(a[0]); c=need_conc(bl,'file_name')
+    c=c.rstrip(b'/')
+    if not c: return none()
+    name=c.split(b'/')[-1]
+    if name in (b'..',): return none()
+    if name==b'.': return none()
+    return some(Ref(Cell(Agg('OsStr',[StringO(list(name))]))))
+def m_osstr_to_str(e,run,a,f):
+    bl=pb_bytes(a[0]); okv,_=utf8_valid(run,bl)
+    return some(Ref(Cell(Str(bl)))) if okv else none()
+def register_ext(E):
+    M=E.model
+    for op in ('lt','le','gt','ge'):
+        M(r'^<DateTime<.*> as PartialOrd(<.*>)?>::%s$'%op,m_dt_cmp(op))
+    M(r'^<DateTime<.*> as PartialEq(<.*>)?>::eq$',m_dt_cmp('eq'))
+    M(r'^<DateTime<.*> as PartialEq(<.*>)?>::ne$',m_dt_cmp('ne'))
+    M(r'^<DateTime<.*> as Clone>::clone$',m_dt_clone)
+    M(r'^Path::file_name$',m_path_file_name)
+    M(r'^OsStr::to_str$',m_osstr_to_str)
+_old_register_all2=register_all
+def register_all(E):
+    register_ext(E); _old_register_all2(E)
+
+# ----------------------------------------------------------------------------- Default
+def m_default(e,run,a,f):
+    m=re.match(r'^<(.*) as Default>::default$',strip_t(f))
+    t=m.group(1) if m else ''
+    if re.match(r'^(std::vec::)?Vec<',t): return VecO([])
+    if re.match(r'^(std::string::)?String$',t): return StringO([])
+    if re.match(r'^(std::collections::)?(hash_map::)?HashMap<',t): return MapO(False)
+    if re.match(r'^(std::collections::)?BTreeMap<',t): return MapO(True)
+    if re.match(r'^(std::collections::)?HashSet<',t): return MapO(False,True)
+    if re.match(r'^(std::collections::)?BTreeSet<',t): return MapO(True,True)
+    if re.match(r'^(std::option::)?Option<',t): return none()
+    if t in ('u8','u16','u32','u64','usize'): return Int({'u8':8,'u16':16,'u32':32,'u64':64,'usize':64}[t],False,0)
+    if t in ('i8','i16','i32','i64','isize'): return Int({'i8':8,'i16':16,'i32':32,'i64':64,'isize':64}[t],True,0)
+    if t=='bool': return Bool(False)
+    raise Unsupported('Default for '+t)
+def register_default(E): E.model(r' as Default>::default$',m_default)
+_old_register_all3=register_all
+def register_all(E):
+    _old_register_all3(E); register_default(E)
